@@ -203,6 +203,7 @@ struct Agg {
     batch_digest: u64,
     prefix_digest: u64,
     prefix_runs: Vec<(String, u64, u64, u64)>, // (batch, index, log digest, aux digest)
+    rehop: Vec<(usize, u64, u64)>,             // (batch no, index, log digest) to re-execute
     violations: Vec<(String, u64, Violation)>, // (batch, index, violation)
     determinism_pairs: u64,
     determinism_mismatch: Vec<(String, u64)>,
@@ -228,6 +229,7 @@ impl Agg {
         self.batch_digest = self.batch_digest.wrapping_add(o.batch_digest);
         self.prefix_digest = self.prefix_digest.wrapping_add(o.prefix_digest);
         self.prefix_runs.extend(o.prefix_runs);
+        self.rehop.extend(o.rehop);
         self.violations.extend(o.violations);
         self.determinism_pairs += o.determinism_pairs;
         self.determinism_mismatch.extend(o.determinism_mismatch);
@@ -332,23 +334,10 @@ fn run_batches<P: Property>(
                                         agg.violations.push((b.name.to_string(), idx, v.clone()));
                                     }
                                 }
-                                // determinism proof (a): re-execute on a freshly spawned thread
+                                // determinism proof (a), first half: remember the digest; a second pass
+                                // re-executes these runs on freshly spawned threads (see below)
                                 if rehop_every > 0 && idx % rehop_every == 0 {
-                                    let d2 = std::thread::scope(|s2| {
-                                        std::thread::Builder::new()
-                                            .stack_size(64 << 20)
-                                            .spawn_scoped(s2, || {
-                                                let case2 = p.gen(b.name, idx, cs);
-                                                p.run(&case2).log_digest
-                                            })
-                                            .unwrap()
-                                            .join()
-                                            .unwrap_or(0)
-                                    });
-                                    agg.determinism_pairs += 1;
-                                    if d2 != rep.log_digest {
-                                        agg.determinism_mismatch.push((b.name.to_string(), idx));
-                                    }
+                                    agg.rehop.push((bno, idx, rep.log_digest));
                                 }
                             }
                         }
@@ -360,6 +349,39 @@ fn run_batches<P: Property>(
         });
     }
     let mut agg = total.into_inner().unwrap();
+    // determinism proof (a), second half: every sampled run is executed again on a thread that
+    // did not exist during the first pass (fresh thread-local RNG state, hash keys, allocator arena)
+    if !agg.rehop.is_empty() {
+        agg.rehop.sort();
+        let list = std::mem::take(&mut agg.rehop);
+        let next = AtomicU64::new(0);
+        let mism = Mutex::new(Vec::new());
+        std::thread::scope(|s| {
+            for w in 0..nworkers {
+                let (next, mism, list, batches) = (&next, &mism, &list, &batches);
+                std::thread::Builder::new()
+                    .stack_size(64 << 20)
+                    .spawn_scoped(s, move || loop {
+                        let i = next.fetch_add(1, Ordering::Relaxed) as usize;
+                        if i >= list.len() {
+                            super::crash::clear_current(w);
+                            break;
+                        }
+                        let (bno, idx, d1) = list[i];
+                        let bname = batches[bno].name;
+                        let cs = case_seed(seed, p.id(), bname, idx);
+                        super::crash::set_current(w, bno as u64, idx);
+                        let d2 = p.run(&p.gen(bname, idx, cs)).log_digest;
+                        if d2 != d1 {
+                            mism.lock().unwrap().push((bname.to_string(), idx));
+                        }
+                    })
+                    .unwrap();
+            }
+        });
+        agg.determinism_pairs = list.len() as u64;
+        agg.determinism_mismatch = mism.into_inner().unwrap();
+    }
     agg.violations.sort_by(|a, b| (a.0.as_str(), a.1).cmp(&(b.0.as_str(), b.1)));
     agg.determinism_mismatch.sort();
     agg.prefix_runs.sort();
@@ -727,6 +749,10 @@ pub fn check<P: Property>(p: &P, tier: Tier) -> i32 {
     };
     let agg = run_batches(p, tier, seed, nworkers, false, rehop);
     let wall_batches = t0.elapsed().as_secs_f64();
+    let timing = std::env::var("VERIF_TIMING").is_ok();
+    if timing {
+        eprintln!("TIMING batches done at {:.2}s", t0.elapsed().as_secs_f64());
+    }
 
     // determinism proof (b): same prefix of every batch in a second OS process, other worker count
     let mut process_hop = json!({"checked": false});
@@ -788,6 +814,9 @@ pub fn check<P: Property>(p: &P, tier: Tier) -> i32 {
             }
             Err(e) => harness_error = Some(format!("cannot spawn process-hop child: {}", e)),
         }
+    }
+    if timing {
+        eprintln!("TIMING process-hop done at {:.2}s", t0.elapsed().as_secs_f64());
     }
     if !agg.determinism_mismatch.is_empty() {
         harness_error = Some(format!(
